@@ -86,6 +86,9 @@ def container(contests, layout):
 
 def session(tab, batch, rec, group, parts, mask="D:\\NAS\\img\\00007_00003_000042.tif"):
     """parts: ordered list of (key, contests, layout) with key in Original/Modified"""
+    if isinstance(rec, str) and rec.startswith("X") and len(rec) > 1:  # obfuscated identifier: the record number is in the image name, zero-padded
+        mask = "D:\\NAS\\img\\00007_00003_%06d.tif" % int(rec[1:])
+        rec = "X"
     s = {"TabulatorId": tab, "BatchId": batch, "RecordId": rec, "CountingGroupId": group, "ImageMask": mask, "SessionType": "ScannedVote"}
     for key, contests, layout in parts:
         s[key] = container(contests, layout)
@@ -106,6 +109,8 @@ def ref_session(s_spec, opts):
     rid = rec
     if rec == "X":
         rid = 42
+    elif isinstance(rec, str) and rec.startswith("X"):
+        rid = int(rec[1:])
     return (f"{tab}-{batch}-{rid}", f"{tab}-{batch}", group in opts["pool_groups"], votes)
 
 
@@ -218,7 +223,7 @@ def part_e_cases():
 def part_c_cases():
     for nses in (1, 2):
         for groups in itertools.product((1, 2), repeat=nses):
-            for recs in itertools.product((5, "X"), repeat=nses):
+            for recs in itertools.product((5, "X", "X120", "X1000", "X7"), repeat=nses):
                 for ig in ([], [1], [2]):
                     for pg in ([], [1], [2], [1, 2]):
                         spec = [(7 + i, 3 + i, recs[i], groups[i], [("Original", [("c1", VARIANTS["a" if i == 0 else "b"])], "flat")]) for i in range(nses)]
@@ -289,7 +294,7 @@ def run_shard(sh, rec):
             if opts["include_groups"] and any(s[3] not in opts["include_groups"] for s in spec):
                 rec.vac("sessions_filtered_out")
                 rec.outcome((repr(spec), repr(opts)))
-            if any(s[2] == "X" for s in spec):
+            if any(isinstance(s[2], str) and s[2].startswith("X") for s in spec):
                 rec.vac("obfuscated_ids")
             for key, what in v:
                 rec.violate(key, what, {"spec": spec, "opts": opts})
